@@ -494,9 +494,9 @@ def run(ctx: core.Ctx):
         'crash model: a file-system call raises before or after taking effect (no torn writes)',
         'interrupted merges may be recovered by moving already-moved inputs back and removing the partial directory',
     ]
-    core.run_machine(ctx, C10Machine, max_examples=ctx.n(30, 200), steps=40, salt=0)
-    core.run_given(ctx, plan_strategy(lookups=True, faults=True), lambda p: run_plan(C10Machine, ctx, p), ctx.n(30, 250), salt=20)
-    core.run_given(ctx, scenario(), lambda c: body(ctx, c), ctx.n(5, 40), salt=50, shrink=False)
+    core.run_machine(ctx, C10Machine, max_examples=ctx.n(20, 200), steps=40, salt=0)
+    core.run_given(ctx, plan_strategy(lookups=True, faults=True), lambda p: run_plan(C10Machine, ctx, p), ctx.n(20, 250), salt=20)
+    core.run_given(ctx, scenario(), lambda c: body(ctx, c), ctx.n(4, 40), salt=50, shrink=False)
     ctx.extra['crash_points_exhaustive_per_scenario'] = True
 
 
